@@ -415,10 +415,13 @@ func vGenCtr(rng *rand.Rand, p *vPod, n int, machineCPUs int) *vCtr {
 	if vMemHeavy && len(vNodeMem) > 0 {
 		// memory-pressure histories: requests sized relative to a NUMA node, so that zones get
 		// overcommitted and the allocator moves other containers' allocations to wider zones
-		if rng.Intn(2) == 0 {
+		if rng.Intn(3) != 0 {
 			c.mem = vNodeMem[rng.Intn(len(vNodeMem))] * int64(30+rng.Intn(45)) / 100
+			if p.qos == "BestEffort" && !p.announced {
+				p.qos = "Burstable" // (memory requests/limits make the pod Burstable)
+			}
 		}
-		if rng.Intn(6) == 0 && !p.announced {
+		if rng.Intn(3) == 0 && !p.announced {
 			p.ann["memory.preserve."+vKey+"/container."+c.name] = "true"
 		}
 	}
@@ -526,6 +529,50 @@ func (h *vHarness) vRunHistory(w *bufio.Writer, rng *rand.Rand, wd *vWorld, nEve
 		}
 		sort.Slice(l, func(i, j int) bool { return l[i].id < l[j].id })
 		return l
+	}
+	if vMemHeavy && len(vNodeMem) > 0 && !malformed {
+		// prelude of memory-pressure histories: an opted-out (memory.preserve) low-priority container, then
+		// containers that together overcommit every zone, so that the allocator has to move allocations
+		big := int64(0)
+		for _, m := range vNodeMem {
+			if m > big {
+				big = m
+			}
+		}
+		mk := func(qos string, mem int64, preserve bool) {
+			p := vGenPod(rng, wd.nPod)
+			wd.nPod++
+			p.qos, p.ns = qos, "default"
+			for k := range p.ann {
+				delete(p.ann, k)
+			}
+			wd.pods[p.id] = p
+			c := vGenCtr(rng, p, wd.nCtr, machineCPUs)
+			wd.nCtr++
+			for k := range p.ann {
+				delete(p.ann, k)
+			}
+			c.mem, c.milli, c.limit = mem, 100, 0
+			if preserve {
+				p.ann["memory.preserve."+vKey+"/container."+c.name] = "true"
+			}
+			wd.ctrs[c.id] = c
+			p.announced = true
+			h.simple(w, "runpod "+p.id+" "+p.ns+" "+p.qos, func() ([]*api.ContainerUpdate, error) { return nil, h.m.nri.RunPodSandbox(ctx, p.nri()) })
+			if res := h.createCtr(w, c); !strings.HasPrefix(res, "ok") {
+				h.simple(w, "remove "+c.id, func() ([]*api.ContainerUpdate, error) { return nil, h.m.nri.RemoveContainer(ctx, c.pod.nri(), c.nri()) })
+				delete(wd.ctrs, c.id)
+				return
+			}
+			c.state = api.ContainerState_CONTAINER_RUNNING
+			h.simple(w, "start "+c.id, func() ([]*api.ContainerUpdate, error) { return nil, h.m.nri.StartContainer(ctx, c.pod.nri(), c.nri()) })
+		}
+		for i := 0; i < 1+rng.Intn(2); i++ {
+			mk("Burstable", big*int64(5+rng.Intn(20))/100, true)
+		}
+		for i := 0; i < len(vNodeMem)+1; i++ {
+			mk([]string{"Guaranteed", "Burstable"}[rng.Intn(2)], big*int64(45+rng.Intn(30))/100, false)
+		}
 	}
 	for i := 0; i < nEvents; i++ {
 		r := rng.Intn(100)
@@ -819,7 +866,7 @@ func TestVerifTAHistories(t *testing.T) {
 		fmt.Fprintf(w, "E init\nR ok - -\n")
 		h.vAfter(w)
 		wd := &vWorld{pods: map[string]*vPod{}, ctrs: map[string]*vCtr{}}
-		vMemHeavy, vNodeMem = i%3 == 1, nil
+		vMemHeavy, vNodeMem = i%2 == 1, nil
 		vRestarts = os.Getenv("VERIF_RESTARTS") == "1"
 		for _, nd := range m.Nodes {
 			if nd.HasMemory && nd.MemTotal > 0 {
